@@ -698,7 +698,11 @@ func runC17(c *Ctx) {
 	}
 	c.Floor("memory RangeKeys interval sites", len(sites), 1)
 	if ms != nil {
-		ok, why := ms.sameSet(c, between, "param#1", ms.roles[1], "param#2", true, false)
+		// the polarity in which the test is written is not fixed here (an early
+		// `if !Between { return true }` is as good as `if Between {...}`): the set is
+		// compared as the call computes it, and the append-guard obligation below
+		// requires the test to have held (a path fact about the call) at every append
+		ok, why := ms.sameSet(c, between, "param#1", ms.roles[1], "param#2", true, ms.neg)
 		c.Ob("interval", "memory.RangeKeys#(low,id,high]", ms.call.Pos(), ok && strings.HasPrefix(ms.roles[1], "lit.param#0"), fmt.Sprintf("buckets are selected by Between(low, id, high, true) on the bucket's own id; site %s %s", ms, why))
 		// the append is filtered by nothing else about ids; callbacks never stop early
 		for _, call := range mrk.Calls(true, func(call *ast.CallExpr) bool {
